@@ -156,6 +156,12 @@ def check(R, F, P, cfg):
             old_arg = strip(a_ma[3])
             size_call = [x for x in S.calls_to(PC + "size") if S.dominates(x, sw[0], exclude=("ui", "u"))]
             old_ok = isinstance(old_arg, tuple) and old_arg[0] == "call" and old_arg[1] == PC + "size" and bool(size_call)
+            if not old_ok and isinstance(old_arg, tuple) and old_arg[0] == "ret" and old_arg[1] == PC + "swap_list" and old_arg[3] == "%s:bb%d" % (sw[0].ctx.fn.npath, sw[0].bb):
+                # swap_list itself hands back the size it replaced (Cell::replace on self.size)
+                slf = anchor(F, PC + "swap_list")
+                Ssl = Super(P, slf, opaque=set())
+                rvs = {fmt(strip(tables.SymExec(Ssl, p_.path).retval)) for p_ in tables.normal_paths(Ssl)}
+                old_ok = bool(rvs) and all(r_.startswith("load(") and r_.rstrip(")").endswith("self.size") for r_ in rvs)
             cnt_ok, cnt_det = _counter_in_fold(S, n_arg)
             ok = on_true and order and same_list and mk and old_ok and cnt_ok
             R.inst("R2.5", "rebuffer", ok, "on has_finalized: swap_list then mark_self_and_append=%s (guard %s); same list=%s; mark=PossibleCycles=%s; old size = pc.size() before the swap=%s; swap size %s: %s" % (
